@@ -4532,6 +4532,17 @@ def EditHyps' (S : Schema) (op : Op) (tr tr1 : Tr) : Prop :=
           fnorm sl.content = true))
   | op => MixedResidual S op tr tr1
 
+/-- the class "cut from a valid document" of `EditHyps'` needs no separate normal-form hypothesis when the source
+    document is in normal form (cutting preserves it: `sliceKids_norm`) — e.g. a slice copied from a document of
+    the history itself (`FamilyInv`) -/
+theorem editHyps'_of_cut (S : Schema) (tr tr1 : Tr) (f t : Nat) (sl : Slice) (hft : f ≤ t)
+    (hattrs : S.nodeAttrsOK tr.doc = true) (src : Node) (a b : Nat) (hv : C01.Valid S src)
+    (hsn : fnorm src.kids = true) (hcut : src.slice a b = .ok sl)
+    (hrun : unplacedWfRun S tr.doc f t sl = true) (hb1 : sliceBmp sl = true ∨ bmpDoc tr1.doc = true) :
+    EditHyps' S (.replace f t sl) tr tr1 :=
+  ⟨hft, hattrs, Or.inr (Or.inr ⟨Or.inr ⟨src, a, b, hv, hcut⟩, hrun, hb1,
+    (sliceKids_norm src.kids a b sl hsn hcut).1⟩)⟩
+
 /-- `EditHyps'` implies `EditHyps` -/
 theorem editHyps_of' (S : Schema) (op : Op) (tr tr1 : Tr) (hlen : tr.steps.length = tr.docs.length)
     (h : tr.runOp S op = some tr1) (hres : EditHyps' S op tr tr1) : EditHyps S op tr tr1 := by
